@@ -4,6 +4,7 @@ import (
 	"bytes"
 	"fmt"
 	"sort"
+	"strings"
 
 	"github.com/berquerant/crd/desc"
 	"github.com/berquerant/crd/errorx"
@@ -133,7 +134,8 @@ crd info chord describe -t "Caug" -s`,
 
 		noteString := tree.Degree.Degree.Value()
 		if a := tree.Degree.Accidental; a != nil {
-			noteString += a.Value()
+			// the lexer also accepts the Unicode signs
+			noteString += strings.NewReplacer("♯", "#", "♭", "b").Replace(a.Value())
 		}
 		root, err := note.ParseNote(noteString)
 		if err != nil {
